@@ -10,7 +10,7 @@ Lower(s) == [i \in 1..Len(s) |-> LowerC(s[i])]
 Digits == {"0","1","2","3","4","5","6","7","8","9"}
 DigitVal(c) == CASE c = "0" -> 0 [] c = "1" -> 1 [] c = "2" -> 2 [] c = "3" -> 3 [] c = "4" -> 4
                  [] c = "5" -> 5 [] c = "6" -> 6 [] c = "7" -> 7 [] c = "8" -> 8 [] c = "9" -> 9
-Letters == {"a","b","c","d","e","f","g","h","i","j","k","l","m","n","o","p","q","r","s","t","u","v","w","x","y","z","A","B","C","D","E","F","G","H","I","J","K","L","M","N","O","P","Q","R","S","T","U","V","W","X","Y","Z"}
+Letters == {"a","b","c","d","e","f","g","h","i","j","k","l","m","n","o","p","q","r","s","t","u","v","w","x","y","z","A","B","C","D","E","F","G","H","I","J","K","L","M","N","O","P","Q","R","S","T","U","V","W","X","Y","Z","B+E2","B+84","B+AA"}
 
 AllIn(s, S) == \A i \in 1..Len(s) : s[i] \in S
 HasChar(s, c) == \E i \in 1..Len(s) : s[i] = c
